@@ -520,7 +520,7 @@ Definition spec_x (s : system) (marks : list xmark) : outcome * bool :=
   | None => (Malformed, false)
   | Some (ivs0, es0) =>
       match check_inits s ivs0 0 s with
-      | _ :: _ as iss0 => (Done (invalid_result MInvalid iss0), false)
+      | (_ :: _) as iss0 => (Done (invalid_result MInvalid iss0), false)
       | [] =>
           let vst := analyse_asts s ivs0 es0 in
           match vs_issues vst with
@@ -588,4 +588,92 @@ Proof.
     f_equal. apply remark_ext. intros p Hp. cbn [Nat.add]. apply (He ivs0 es0 eq_refl).
     destruct (analyse_asts_kept s ivs0 es0) as (L & _). lia. }
   rewrite E in A. rewrite <- B in A. inversion A. split; reflexivity.
+Qed.
+
+(* ------------------------------------------------------------------ the messages *)
+
+Definition entry_msg (s : system) (U : list ivar) (en : vref * list vref) : list xissue :=
+  let '(key, vs) := en in
+  let is_voi := vtype_eqb (iv_type (geti U (ivar_of s U key))) VVoi in
+  if is_voi || (1 <? length vs) || negb (existsb (vref_eqb key) vs)
+  then [mkXissue (if is_voi then XVoi else XUsePrimary) (XLocal key)] else [].
+
+Lemma check_fold_msgs : forall s voi U pe g xi ivs2 xi2,
+  Forall plain U ->
+  fold_left (check_step true s voi) pe (remark g 0 U, xi) = (ivs2, xi2) ->
+  xi2 = xi ++ flat_map (entry_msg s U) pe.
+Proof.
+  intros s voi U pe. induction pe as [|[key vs] t IH]; intros g xi ivs2 xi2 HU H; cbn [fold_left flat_map] in *.
+  - inversion H; subst. rewrite app_nil_r. reflexivity.
+  - unfold check_step at 2 in H. cbn [andb] in H. rewrite ivar_of_remark in H.
+    unfold entry_msg at 1. set (p := ivar_of s U key) in *. rewrite remark_type in H.
+    destruct (vtype_eqb (iv_type (geti U p)) VVoi) eqn:Et; cbn [orb andb] in H |- *.
+    + destruct (Nat.lt_ge_cases p (length U)) as [L|L].
+      2:{ rewrite geti_beyond in Et by exact L. discriminate. }
+      rewrite remark_geti in H by exact L. cbn [Nat.add] in H.
+      rewrite clear_ext_apply_mark in H by (rewrite Forall_forall in HU; apply HU; apply geti_In; exact L).
+      assert (E : upd (remark g 0 U) p (geti U p) = remark (fupd g p None) 0 U) by (rewrite remark_fupd by exact L; reflexivity).
+      rewrite E in H. rewrite (IH _ _ _ _ HU H). rewrite <- app_assoc. reflexivity.
+    + destruct ((1 <? length vs) || negb (existsb (vref_eqb key) vs)).
+      * rewrite (IH _ _ _ _ HU H). rewrite <- app_assoc. reflexivity.
+      * rewrite (IH _ _ _ _ HU H). reflexivity.
+Qed.
+
+(** the messages of a model without initialisation / variable-of-integration errors *)
+Theorem analyse_x_messages : forall s marks ivs0 es0,
+  resolvable s = true -> build s = Some (ivs0, es0) -> check_inits s ivs0 0 s = [] ->
+  vs_issues (analyse_asts s ivs0 es0) = [] ->
+  xr_messages (analyse_x true s marks) =
+  foreign_messages marks ++ flat_map (entry_msg s (vs_ivs (analyse_asts s ivs0 es0))) (pev_of s ivs0 marks []).
+Proof.
+  intros s marks ivs0 es0 Hres Eb Eci Ei. unfold analyse_x. rewrite Hres, Eb, Eci. cbn [negb].
+  destruct (fold_left (mark_step s) marks (ivs0, [], [])) as [[ivs1 pe] xi1] eqn:Em.
+  pose proof (build_plain _ _ _ Eb) as Hplain.
+  assert (Hne : Forall (fun v => iv_external v = false) ivs0).
+  { eapply Forall_impl; [|exact Hplain]. intros v (A & _). exact A. }
+  destruct (mark_fold_remark s ivs0 marks ivs1 pe xi1 Em Hne) as (E1 & E2 & E3). subst ivs1.
+  rewrite analyse_asts_remark. cbn [rst vs_issues vs_voi vs_ivs]. rewrite Ei.
+  set (vst := analyse_asts s ivs0 es0). set (U := vs_ivs vst).
+  destruct (fold_left (check_step true s (vs_voi vst)) pe (remark (first_mark s ivs0 marks) 0 U, [])) as [ivs2 xi2] eqn:Ec.
+  pose proof (analyse_asts_plain s ivs0 es0 Hplain) as HUplain.
+  pose proof (check_fold_msgs s (vs_voi vst) U pe _ _ _ _ HUplain Ec) as E4. cbn [app] in E4.
+  destruct (loop s (loop_fuel es0) 1 false (mkCs ivs2 0 0) es0) as [[st es1]|]; cbn [xr_messages]; subst; reflexivity.
+Qed.
+
+(* the variables filed under a key are marks whose tracked variable is that key *)
+Lemma pev_add_entry : forall key v pe k vs, In (k, vs) (pev_add key v pe) ->
+  In (k, vs) pe \/ (k = key /\ exists vs0, vs = vs0 ++ [v] /\ (vs0 = [] \/ In (k, vs0) pe)).
+Proof.
+  intros key v pe. induction pe as [|[k0 vs0] t IH]; intros k vs H; cbn [pev_add] in H.
+  - destruct H as [H|[]]. inversion H; subst. right. split; [reflexivity|]. exists []. split; [reflexivity|left; reflexivity].
+  - destruct (vref_eqb k0 key) eqn:E.
+    + assert (k0 = key).
+      { unfold vref_eqb in E. apply andb_true_iff in E. destruct E as (A & B). apply Nat.eqb_eq in A. apply Nat.eqb_eq in B.
+        destruct k0, key. cbn in *. congruence. }
+      subst k0. destruct H as [H|H].
+      * inversion H; subst. right. split; [reflexivity|]. exists vs0. split; [reflexivity|right; left; reflexivity].
+      * left. right. exact H.
+    + destruct H as [H|H]; [left; left; exact H|].
+      destruct (IH _ _ H) as [K|(K1 & vs1 & K2 & K3)]; [left; right; exact K|].
+      right. split; [exact K1|]. exists vs1. split; [exact K2|]. destruct K3 as [K3|K3]; [left; exact K3|right; right; exact K3].
+Qed.
+
+Lemma pev_of_members : forall s ivs0 marks pe k vs x,
+  In (k, vs) (pev_of s ivs0 marks pe) -> In x vs ->
+  (exists vs0, In (k, vs0) pe /\ In x vs0) \/
+  (exists m, In m marks /\ xm_var m = XLocal x /\ iv_var (geti ivs0 (ivar_of s ivs0 x)) = k).
+Proof.
+  intros s ivs0 marks. induction marks as [|m t IH]; intros pe k vs x H Hx.
+  - left. exists vs. split; assumption.
+  - unfold pev_of in H. cbn [fold_left] in H. fold (pev_of s ivs0 t) in H.
+    destruct (xm_var m) as [r|j] eqn:Ev; cbn [local_of] in H.
+    + destruct (IH _ _ _ _ H Hx) as [(vs0 & A & B)|(m1 & A & B & C)].
+      * destruct (pev_add_entry _ _ _ _ _ A) as [K|(K1 & vs1 & K2 & K3)].
+        -- left. exists vs0. split; assumption.
+        -- subst vs0. apply in_app_or in B. destruct B as [B|[<-|[]]].
+           ++ destruct K3 as [->|K3]; [destruct B|]. left. exists vs1. split; assumption.
+           ++ right. exists m. split; [left; reflexivity|]. split; [exact Ev|]. symmetry. exact K1.
+      * right. exists m1. split; [right; exact A|]. split; assumption.
+    + destruct (IH _ _ _ _ H Hx) as [K|(m1 & A & B & C)]; [left; exact K|].
+      right. exists m1. split; [right; exact A|]. split; assumption.
 Qed.
